@@ -286,6 +286,7 @@ func runC05(t *testing.T, c *choice.Stream, r *Result, opt RunOpt) {
 	bufMax := c.Pick("buf.max", 1, 3, 16, 100, 4096, 1<<17)
 	bufSeed := uint64(c.Draw("buf.sizes", 1<<31-1))
 	extraReads := c.Range("reads.after", 1, 5)
+	zeroReads := c.Bool("reads.zero", 1, 4)
 	if fault == "sizes" && bufMax < 4096 {
 		bufMax = 4096 // every read is bracketed by a memory-statistics snapshot in this configuration
 	}
@@ -380,6 +381,9 @@ func runC05(t *testing.T, c *choice.Stream, r *Result, opt RunOpt) {
 		buf := make([]byte, bufMax)
 		for i := 0; i < maxReads*4+1000; i++ {
 			b := buf[:1+bufRng.IntN(bufMax)]
+			if zeroReads && bufRng.IntN(8) == 0 {
+				b = buf[:0] // io.Reader allows a zero-length read; it takes nothing
+			}
 			if fault == "sizes" && firstErr == nil {
 				runtime.ReadMemStats(&ms0)
 			}
@@ -409,7 +413,7 @@ func runC05(t *testing.T, c *choice.Stream, r *Result, opt RunOpt) {
 				if extra < 0 {
 					break
 				}
-			} else if n == 0 {
+			} else if n == 0 && len(b) > 0 {
 				// a reader may return (0, nil) but not forever
 				extra--
 				if extra < -50 {
